@@ -157,6 +157,7 @@ func runC04(c *Ctx) {
 	c.Floor("C04-R1", "ciphertext slots of persistence helpers", nSlots, 14)
 	c.Floor("C04-R1", "slot-filling call sites", nSites, 25)
 	checkCiphertextFieldSlots(c, "C04-R1")
+	checkScriptSecrecyClassIsCallers(c, "C04-R1")
 
 	// ---------- R2 ----------
 	nPut := 0
@@ -301,43 +302,7 @@ func runC04(c *Ctx) {
 	checkLiveKeysUsedUnderLock(c, "C04-R6")
 	checkUnlockedFlagSetLast(c, "C04-R6")
 	checkNoKeyUseAfterZero(c, "C04-R2") // a key wiped before it is used seals under the all-zero key
-	// live crypto keys never wiped through an aliasing accessor outside the wipe functions
-	nZero := 0
-	for _, fn := range p.FuncsIn("waddrmgr") {
-		top := outermost(fn).Name()
-		for _, ci := range callsOf(fn) {
-			call, ok := ci.(*ssa.Call)
-			if !ok {
-				continue
-			}
-			n := calleeShort(&call.Call)
-			if n != "Bytes" && n != "Bytea32" && n != "Bytea64" {
-				continue
-			}
-			callee := call.Call.StaticCallee()
-			if callee == nil || !strings.HasSuffix(fnPkgPath(callee), "internal/zero") {
-				continue
-			}
-			nZero++
-			sl := &Slicer{P: p, ThroughDeref: true}
-			alias := ""
-			for _, o := range sl.Origins(call.Call.Args[0]) {
-				if oc, ok := o.(*ssa.Call); ok && calleeShort(&oc.Call) == "Bytes" {
-					recv := oc.Call.Value
-					if !oc.Call.IsInvoke() && len(oc.Call.Args) > 0 {
-						recv = oc.Call.Args[0]
-					}
-					if _, f, _, okf := fieldOf(recv); okf && strings.HasPrefix(f, "cryptoKey") {
-						alias = f
-					}
-				}
-			}
-			okZ := alias == "" || top == "lock" || top == "Close"
-			c.Check("C04-R6", "no-wipe-through-alias:"+fnName(fn), call.Pos(), okZ,
-				"zero.Bytes wipes the bytes returned by "+alias+".Bytes(), which alias the live key: the key is all-zero while the manager still reports unlocked, and later secrets are sealed under a publicly known key")
-		}
-	}
-	c.Floor("C04-R6", "zeroing calls examined", nZero, 15)
+	checkNoWipeThroughAlias(c, "C04-R6")
 }
 
 // slotOrigins returns descriptions of origins of v that are not acceptable ciphertext sources for a slot of class want.
@@ -614,4 +579,47 @@ func freshKeyClass(p *Program, k ssa.Value) string {
 		}
 	}
 	return ""
+}
+
+// checkNoWipeThroughAlias: live crypto keys are never wiped through an aliasing accessor outside the wipe functions
+// (cryptoKey.Bytes() hands out the live array: zeroing what it returned zeroes the key while the manager still reports
+// unlocked — every private-key operation then fails or seals under the all-zero key).
+func checkNoWipeThroughAlias(c *Ctx, rule string) {
+	p := c.P
+	nZero := 0
+	for _, fn := range p.FuncsIn("waddrmgr") {
+		top := outermost(fn).Name()
+		for _, ci := range callsOf(fn) {
+			call, ok := ci.(*ssa.Call)
+			if !ok {
+				continue
+			}
+			n := calleeShort(&call.Call)
+			if n != "Bytes" && n != "Bytea32" && n != "Bytea64" {
+				continue
+			}
+			callee := call.Call.StaticCallee()
+			if callee == nil || !strings.HasSuffix(fnPkgPath(callee), "internal/zero") {
+				continue
+			}
+			nZero++
+			sl := &Slicer{P: p, ThroughDeref: true}
+			alias := ""
+			for _, o := range sl.Origins(call.Call.Args[0]) {
+				if oc, ok := o.(*ssa.Call); ok && calleeShort(&oc.Call) == "Bytes" {
+					recv := oc.Call.Value
+					if !oc.Call.IsInvoke() && len(oc.Call.Args) > 0 {
+						recv = oc.Call.Args[0]
+					}
+					if _, f, _, okf := fieldOf(recv); okf && strings.HasPrefix(f, "cryptoKey") {
+						alias = f
+					}
+				}
+			}
+			okZ := alias == "" || top == "lock" || top == "Close"
+			c.Check(rule, "no-wipe-through-alias:"+fnName(fn), call.Pos(), okZ,
+				"zero.Bytes wipes the bytes returned by "+alias+".Bytes(), which alias the live key: the key is all-zero while the manager still reports unlocked, and later secrets are sealed under a publicly known key")
+		}
+	}
+	c.Floor(rule, "zeroing calls examined", nZero, 15)
 }
